@@ -44,7 +44,7 @@ func runC18(t *testing.T, seed uint64, m *Mask) *Report {
 
 func runC18Conn(t *testing.T, seed uint64, m *Mask, opt world.Options, proto string, r *simrt.Rand) *Report {
 	N := int32(1 + r.Intn(4))
-	kinds := []string{"connect", "connect", "connect", "connect_burst", "close_client", "close_server", "cut", "reject_before", "reject_after", "update", "close_burst"}
+	kinds := []string{"connect", "connect", "connect", "connect_burst", "close_client", "close_server", "cut", "reject_before", "reject_after", "update", "close_burst", "rename"}
 	n := 3 + r.Intn(14)
 	type op struct {
 		kind string
@@ -194,6 +194,14 @@ func runC18Conn(t *testing.T, seed uint64, m *Mask, opt world.Options, proto str
 					}
 				}
 				p.live = false
+			case "rename":
+				// the application names an admitted session (a login): its slot stays its slot
+				if lp := livePairs(); len(lp) > 0 {
+					p := lp[h.a%len(lp)]
+					if s := e.FindSession(srv, p.cs.LocalAddr().String()); s != nil {
+						s.SetID(fmt.Sprintf("user-%d-%d", i, h.a%7))
+					}
+				}
 			case "close_burst":
 				lp := livePairs()
 				done := 0
